@@ -297,8 +297,15 @@ pub fn val_case(idx: usize, envj: Value, env: &TypeEnv, tids: Vec<String>, types
         Ok(Err(_)) => (json!([]), json!({"skip": 1}), json!({"skip": 1})),
         Err(_) => (json!([]), json!({"skip": 1}), json!({"skip": 1})),
     };
+    // the same lists with one value too many / one too few
+    let mut more = args.clone(); more.args.push(IDLValue::Null);
+    let mut fewer = args.clone(); fewer.args.pop();
+    let brief = |r: Result<candid::Result<IDLArgs>, String>| -> Value { match r { Ok(Ok(_)) => json!({"ok": 1}), Ok(Err(_)) => json!({"err": 1}), Err(s) => json!({"panic": s}) } };
+    let ann_more = brief(guard(|| more.clone().annotate_types(false, env, types)));
+    let ann_fewer = brief(guard(|| fewer.clone().annotate_types(true, env, types)));
+    let enc_more = match guard(|| more.to_bytes_with_types(env, types)) { Ok(Ok(_)) => json!({"ok": 1}), Ok(Err(_)) => json!({"err": 1}), Err(s) => json!({"panic": s}) };
     let encres = match &enc { Ok(Ok(_)) => json!({"ok": 1}), Ok(Err(e)) => json!({"err": 1, "msg": crate::util::errmsg(&e)}), Err(s) => json!({"panic": s}) };
-    json!({"idx": idx, "kind": "val", "origin": origin, "env": envj, "types": tids, "vals": vals_abs, "ann": ann, "enc": encres, "blob": blob, "dec_t": dec_t, "dec_u": dec_u})
+    json!({"idx": idx, "kind": "val", "origin": origin, "env": envj, "types": tids, "vals": vals_abs, "ann": ann, "enc": encres, "blob": blob, "dec_t": dec_t, "dec_u": dec_u, "ann_more": ann_more, "ann_fewer": ann_fewer, "enc_more": enc_more})
 }
 pub fn tlc_val_case(idx: usize, c: &Value) -> Value {
     let envj = c["env"].as_object().unwrap();
